@@ -153,4 +153,119 @@ Section MapFacts.
       swu u = MOk (x, y) /\ y * y = x * x * x + a * x + b.
     Proof. intros u. destruct (swu_correct u) as [x [y [H1 [H2 _]]]]. exists x, y. now split. Qed.
   End Swu.
+
+  (* ================================================================== Elligator 2 *)
+  (* Montgomery K t^2 = s^3 + J s^2 + s  |->  twisted Edwards a v^2 + w^2 = 1 + d v^2 w^2 with
+     a = (J + 2) / K, d = (J - 2) / K, v = s / t, w = (s - 1) / (s + 1)   (RFC 9380 appendix D.1) *)
+  Lemma mont_to_te_on : forall k j s t ta td,
+    k <> 0 -> t <> 0 -> s <> 0 -> s + 1 <> 0 ->
+    k * (t * t) = s * s * s + j * (s * s) + s ->
+    ta * k = j + (1 + 1) -> td * k = j - (1 + 1) ->
+    let i := inv ((s + 1) * t) in
+    let v := i * (s + 1) * s in
+    let w := i * t * (s - 1) in
+    ta * (v * v) + w * w = 1 + td * ((v * v) * (w * w)).
+  Proof.
+    intros k j s t ta td Hk Ht Hs Hs1 Hm Ha Hd.
+    assert (Ej : j = (k * (t * t) - s * s * s - s) * inv (s * s)).
+    { rewrite Hm. field. exact Hs. }
+    assert (Ea : ta = (j + (1 + 1)) * inv k) by (rewrite <- Ha; field; exact Hk).
+    assert (Ed : td = (j - (1 + 1)) * inv k) by (rewrite <- Hd; field; exact Hk).
+    subst ta td. subst j. cbv zeta. field. repeat split; assumption.
+  Qed.
+
+  Section Ell2.
+    (* k = Montgomery B, j = Montgomery A, jk = COEFF_A_OVER_COEFF_B, ki = ONE_OVER_COEFF_B_SQUARE,
+       (ta, td) = twisted Edwards coefficients *)
+    Variables k j jk ki z ta td : K.
+    Hypothesis k_nz : k <> 0.
+    Hypothesis jk_def : jk * k = j.
+    Hypothesis ki_def : ki * (k * k) = 1.
+    Hypothesis ta_def : ta * k = j + (1 + 1).
+    Hypothesis td_def : td * k = j - (1 + 1).
+    Hypothesis sqrt_ok : forall x, is_qr x = true -> exists r, sqrt x = Some r /\ r * r = x.
+    Hypothesis sqrt_zero : sqrt 0 = Some 0.
+    (* Z is a non-square of a finite field; is_qr is invariant under multiplication by non-zero squares *)
+    Hypothesis nonsquare_mul : forall x, x <> 0 -> is_qr x = false -> is_qr (z * x) = true.
+    Hypothesis qr_sq_mul : forall c x, c <> 0 -> is_qr (c * c * x) = is_qr x.
+
+    Local Notation ell2 := (ell2_coded 0 1 add sub mul neg inv eqb is_qr sqrt parity k jk ki z ta td).
+    Local Notation gm x := (sq x * x + jk * sq x + x * ki).
+
+    Lemma gx2_is_t_gx1 : forall t, 1 + t <> 0 ->
+      let x1 := - jk * inv (1 + t) in
+      let x2 := - x1 - jk in
+      gm x2 = t * gm x1.
+    Proof. intros t Ht. cbv zeta. unfold Maps.sq. field. exact Ht. Qed.
+
+    (* for EVERY u (u = 0, 1 + Z u^2 = 0, gx1 = 0, t (s + 1) = 0 included): no panic and the result
+       is on the twisted Edwards curve *)
+    Theorem ell2_correct : forall u, exists v w,
+      ell2 u = MOk (v, w) /\ ta * (v * v) + w * w = 1 + td * ((v * v) * (w * w)).
+    Proof.
+      intros u. unfold ell2_coded.
+      set (den := 1 + z * sq u).
+      set (dd := if is0 den then 1 else den).
+      set (x1 := - jk * inv dd).
+      set (x2 := - x1 - jk).
+      assert (finish : forall x y0 (q : bool), y0 * y0 = gm x ->
+        exists v w,
+         (let y := if negb (Bool.eqb (parity y0) q) then - y0 else y0 in
+          let s := x * k in let t := y * k in let tv1 := s + 1 in let tv2 := tv1 * t in
+          let vw := if is0 tv2 then (0, 1) else let tv2_inv := inv tv2 in (tv2_inv * tv1 * s, tv2_inv * t * (s - 1)) in
+          if te_on 1 add mul eqb ta td vw then MOk vw else MPanic) = MOk (v, w)
+         /\ ta * (v * v) + w * w = 1 + td * ((v * v) * (w * w))).
+      { intros x y0 q Hy0. cbv zeta.
+        set (y := if negb (Bool.eqb (parity y0) q) then - y0 else y0).
+        assert (Hy : y * y = gm x).
+        { unfold y. destruct (negb _); [rewrite <- Hy0; ring | exact Hy0]. }
+        set (s := x * k). set (t := y * k).
+        assert (Hm : k * (t * t) = s * s * s + j * (s * s) + s).
+        { unfold s, t. transitivity (k * k * k * (y * y)); [ring|]. rewrite Hy. rewrite <- jk_def.
+          unfold Maps.sq.
+          transitivity (x * k * (x * k) * (x * k) + jk * k * (x * k * (x * k)) + x * k * (ki * (k * k))); [ring|].
+          rewrite ki_def. ring. }
+        destruct (is0 ((s + 1) * t)) eqn:E0.
+        - exists 0, 1.
+          assert (Hon : te_on 1 add mul eqb ta td (0, 1) = true).
+          { unfold te_on. cbn [fst snd]. apply eqb_spec. unfold Maps.sq. ring. }
+          rewrite Hon. split; [reflexivity | ring].
+        - apply is0_false in E0.
+          assert (Hs1 : s + 1 <> 0) by (intros E; apply E0; rewrite E; ring).
+          assert (Ht : t <> 0) by (intros E; apply E0; rewrite E; ring).
+          assert (Hs : s <> 0).
+          { intros E. apply Ht. rewrite E in Hm.
+            assert (Ekt : k * (t * t) = 0) by (rewrite Hm; ring).
+            destruct (mul_eq0 _ _ Ekt) as [E1|E1]; [contradiction|].
+            destruct (mul_eq0 _ _ E1); assumption. }
+          pose proof (mont_to_te_on k j s t ta td k_nz Ht Hs Hs1 Hm ta_def td_def) as Hte. cbv zeta in Hte.
+          eexists. eexists.
+          assert (Hon : te_on 1 add mul eqb ta td
+                          (inv ((s + 1) * t) * (s + 1) * s, inv ((s + 1) * t) * t * (s - 1)) = true).
+          { unfold te_on. cbn [fst snd]. apply eqb_spec. unfold Maps.sq. exact Hte. }
+          rewrite Hon. split; [reflexivity | exact Hte]. }
+      destruct (is_qr (gm x1)) eqn:Eqr.
+      - destruct (sqrt_ok _ Eqr) as [y0 [Hs Hy0]]. rewrite Hs. apply (finish x1 y0 true Hy0).
+      - assert (Hy : exists y0, sqrt (gm x2) = Some y0 /\ y0 * y0 = gm x2).
+        { assert (Hzero : gm x2 = 0 -> exists y0, sqrt (gm x2) = Some y0 /\ y0 * y0 = gm x2).
+          { intros E. rewrite E. exists 0. split; [exact sqrt_zero | ring]. }
+          destruct (is0 den) eqn:Eden.
+          - apply Hzero. assert (Ex2 : x2 = 0).
+            { unfold x2, x1, dd. try rewrite Eden. field. exact (F_1_neq_0 FT). }
+            rewrite Ex2. unfold Maps.sq. ring.
+          - apply is0_false in Eden.
+            assert (Eg : gm x2 = (z * sq u) * gm x1).
+            { unfold x2, x1, dd. apply is0_false in Eden as Eden'. try rewrite Eden'.
+              exact (gx2_is_t_gx1 (z * sq u) Eden). }
+            destruct (eq_dec (u * u * gm x1) 0) as [E0|E0].
+            + apply Hzero. rewrite Eg. unfold Maps.sq at 1. transitivity (z * (u * u * gm x1)); [ring|].
+              rewrite E0. ring.
+            + apply sqrt_ok. rewrite Eg. unfold Maps.sq at 1.
+              replace (z * (u * u) * gm x1) with (z * (u * u * gm x1)) by ring.
+              apply nonsquare_mul; [exact E0|].
+              rewrite qr_sq_mul; [exact Eqr|].
+              intros Eu. apply E0. rewrite Eu. ring. }
+        destruct Hy as [y0 [Hs Hy0]]. rewrite Hs. apply (finish x2 y0 false Hy0).
+    Qed.
+  End Ell2.
 End MapFacts.
